@@ -113,8 +113,12 @@ def detect_bursts_dual_threshold(sig, fs, dual_thresh, f_range=None, min_n_cycle
         raise ValueError("Invalid cutoff frequency: frequencies must be greater than 0 and less than fs/2.")
     if CUR.dual_threshold is None:
         raise StubNotConfigured('detect_bursts_dual_threshold')
-    return CUR.dual_threshold(sig, fs, dual_thresh, f_range, min_n_cycles, min_burst_duration,
-                              dict(filter_kwargs))
+    kw = dict(filter_kwargs)
+    if avg_type != 'median':              # non-default detector options are part of what the caller asked for
+        kw['avg_type'] = avg_type
+    if magnitude_type != 'amplitude':
+        kw['magnitude_type'] = magnitude_type
+    return CUR.dual_threshold(sig, fs, dual_thresh, f_range, min_n_cycles, min_burst_duration, kw)
 
 
 def zscore(a, *args, **kwargs):
